@@ -418,7 +418,16 @@ def opPlacement (req : J) : J :=
       J.obj [("name", J.str (SkelIO.str w "name")),
              ("corners", match PlaceIO.wallOf spaces w with
                 | some cs => J.arr (cs.map (fun c => J.arr [J.ofRat c.x 6, J.ofRat c.y 6, J.ofRat c.z 6]))
-                | none => J.null)])))]
+                | none => J.null)]))),
+           ("shades", J.arr ((SkelIO.arr src "shades").filterMap (fun sh =>
+             match sh.get? "rect", sh.get? "trig" with
+             | some (J.obj r), some tr =>
+               let rj := J.obj r
+               let cs := Place.rectShadeCorners (PlaceIO.ang tr "g") (PlaceIO.ang tr "a") (PlaceIO.ang tr "t")
+                 ⟨PlaceIO.num rj "x", PlaceIO.num rj "y", PlaceIO.num rj "z"⟩ (PlaceIO.num rj "width") (PlaceIO.num rj "height")
+               some (J.obj [("name", J.str (SkelIO.str sh "name")),
+                            ("corners", J.arr (cs.map (fun c => J.arr [J.ofRat c.x 6, J.ofRat c.y 6, J.ofRat c.z 6])))])
+             | _, _ => none)))]
 
 namespace AuxIO
 open Cte.Aux Cte.Bdl
